@@ -202,9 +202,24 @@ func runTranscode(payload string) string {
 	}()
 	cliCounter++
 	cli := "-"
-	if cliCounter%40 == 1 || len(in) < 4 {
+	if cliCounter%40 == 1 || len(in) < 4 || (len(in) < 90 && bytes.IndexByte(in, 0xc3) >= 0 && cliCounter%3 == 0) {
 		sub := map[string]string{"j2c": "json=cbor", "c2j": "cbor=json"}[dir]
 		cli = runCLI(sub, in)
+		// the hex flavours of the same converters must say the same thing
+		if dir == "j2c" {
+			if h := runCLI("json=cbor.hex", in); strings.HasPrefix(h, "ok:") && strings.HasPrefix(cli, "ok:") {
+				raw, _ := hex.DecodeString(h[3:])
+				if dec, err := hex.DecodeString(strings.TrimSpace(string(raw))); err != nil || "ok:"+hexOrDash(dec) != cli {
+					cli = "hexflavour-differs:" + h[3:]
+				}
+			} else if strings.HasPrefix(h, "ok:") != strings.HasPrefix(cli, "ok:") {
+				cli = "hexflavour-differs:" + h
+			}
+		} else {
+			if h := runCLI("cbor.hex=json", []byte(hex.EncodeToString(in))); h != cli {
+				cli = "hexflavour-differs:" + h
+			}
+		}
 	}
 	if perr != nil {
 		if strings.HasPrefix(perr.Error(), "panic") {
@@ -312,6 +327,31 @@ func genTranscode(g *G, tier string, emit func(string)) {
 			}
 			emitC(append(m, make([]byte, g.intn(3)*8)...))
 		}
+	}
+	// strings and keys of every length around the readers' 32-byte scratch buffer, followed by more items
+	for n := 0; n <= 70; n++ {
+		str := strings.Repeat("k", n)
+		val := strings.Repeat("v", n)
+		emit("j2c " + hexOrDash([]byte(`{"`+str+`":"`+val+`","z":["`+val+`",1,"t"]}`)))
+		var item []byte
+		head := func(major byte, v int) {
+			if v < 24 {
+				item = append(item, major|byte(v))
+			} else {
+				item = append(item, major|24, byte(v))
+			}
+		}
+		item = append(item, 0xa2)
+		head(0x60, n)
+		item = append(item, str...)
+		head(0x60, n)
+		item = append(item, val...)
+		item = append(item, 0x61, 'z', 0x83)
+		head(0x60, n)
+		item = append(item, val...)
+		item = append(item, 0x01, 0x61, 't')
+		emitC(item)
+		emit("j2c " + hexOrDash([]byte(`["é`+val+`","ü"]`))) // non-ASCII, through the command-line converters as well
 	}
 	for major := 0; major < 8; major++ {
 		for ai := 28; ai <= 31; ai++ {
